@@ -2,7 +2,7 @@
 From Coq Require Import List NArith Bool.
 Import ListNotations.
 From SV Require Import Escape EscapeProofs Rules RulesProofs.
-From SV Require Import CramGlobProofs.
+From SV Require Import CramGlobProofs RegexPrep RegexPrepProofs.
 Local Open Scope N_scope.
 
 (* equal: the expression followed by a newline (for an expression that does not itself end in a newline) *)
@@ -27,6 +27,13 @@ Theorem C04_regex_rule_partial : forall (crate_is_match : list N -> list N -> bo
   (forall r s, crate_is_match ([94; 40; 63; 58] ++ print_top r ++ [41; 36]) s = full r s) ->
   forall r l, crate_is_match ([94; 40; 63; 58] ++ print_top r ++ [41; 36]) (trim_newlines l) = true <-> Lang r (trim_newlines l).
 Proof. intros cm H r l. rewrite H. apply full_spec. Qed.
+
+(* before the regex crate sees it a regex expression goes through three compatibility passes (unrecognised escapes,
+   curly brackets that are no quantifier, square brackets inside a character class), transcribed in RegexPrep.v and compared
+   with the implementation on every run.  On an expression without backslash, curly or square bracket and `<` they change
+   nothing: the crate is given the expression as written *)
+Theorem C04_regex_prepare_plain : forall e, forallb plain_char e = true -> regex_prepare e = e.
+Proof. exact prepare_plain. Qed.
 
 Check C04_glob : forall p s, glob_match p s = true <-> GMatch p s.
 Check C04_regex_whole_line : forall s r, full r s = true <-> Lang r s.
@@ -54,3 +61,4 @@ Print Assumptions C04_glob.
 Print Assumptions C04_regex_whole_line.
 Print Assumptions C04_regex_rule_partial.
 Print Assumptions C04_cram_glob.
+Print Assumptions C04_regex_prepare_plain.
